@@ -316,9 +316,10 @@ def execute(wm, proto, frames, cuts, expected_dps, res=0, pause_at=0, idle=None,
     # the delivered timestamp is the sent one rounded down to a multiple of it (C12)
     if res:
       dp = (dp[0], int(dp[1]) // res * res, dp[2])
-    index[key_of(dp)] = i
+    index.setdefault(key_of(dp), []).append(i)       # the very same datapoint may be sent more than once
   bounds = [0] + list(cuts) + [len(stream)]
   nseen = 0
+  used = {}
   wm.settings['MIN_TIMESTAMP_RESOLUTION'] = res
   if pause_at:
     # flow control: while the pause_at-th datapoint is being handled the cache reports full and the real
@@ -345,7 +346,15 @@ def execute(wm, proto, frames, cuts, expected_dps, res=0, pause_at=0, idle=None,
         except Exception as e:
           esc = 1
       new = run.seen[nseen:]
-      ids = [index.get(key_of(dp), 0) for dp in new]
+      ids = []
+      for dp in new:
+        lst = index.get(key_of(dp))
+        if not lst:
+          ids.append(0)
+        else:
+          k = used.get(key_of(dp), 0)
+          used[key_of(dp)] = k + 1
+          ids.append(lst[k] if k < len(lst) else lst[-1])
       nseen = len(run.seen)
       segs.append(dict(n=b - a, delivered=ids, escaped=esc, closed=1 if run.tr.disconnecting else 0))
       if run.tr.disconnecting:
